@@ -781,6 +781,10 @@ class NpyArray:
         self.shape = (length, ) + self.shape[1:]
         self._prepare_header_data()
 
+        # Write the shorter length first so that the file stays loadable at every point
+        self._write_header_data()
+        self.fs.flush()
+
         self.fs.seek(self.header_length + self.size * self.itemsize)
         self.fs.truncate()
 
